@@ -21,7 +21,9 @@ EXPLANATION = ("Decided from MIR, for the code that orders and searches entries 
                "RawValue::partial_cmp, returns the first non-equal answer unchanged, and reader Array::cmp answers Greater when the probe "
                "is exhausted first, Less when the stored bytes are, Equal when both are; (R7) value ids are assigned in the byte order of "
                "the values, by a sort whose key is the whole value (= C15-R4); (R8) every reordering of the entries is followed by a "
-               "re-indexing, and in particular between each sort and the check that follows it (= C15-R1). NOT decided: that the writer's (prefix, value id, length) order and the reader's byte-wise order "
+               "re-indexing, and in particular between each sort and the check that follows it (= C15-R1); (R9) no deferred word (an index "
+               "offset bound to an entry) is evaluated before the stores are sorted (= C15-R11); (R10) the reader clamps the inline part of a "
+               "stored key before narrowing its length (= C02-R14); (R11) Schema::new keeps the list of sort keys as declared. NOT decided: that the writer's (prefix, value id, length) order and the reader's byte-wise order "
                "agree for every key set, nor the result of a search on any store.")
 ASSUMPTIONS = ["rustc MIR construction and trait resolution", "slice / integer Ord::cmp as documented", "rayon par_sort_* sort by the comparator they are given"]
 
@@ -678,6 +680,44 @@ def r7_value_ids_in_byte_order(cx):
         o.key = "R7" + o.key[2:] if o.key.startswith("R4") else o.key
 
 
+def r9_windows_resolved_on_final_positions(cx):
+    """= C15-R11 under C03 ('all index windows'): the offset of an index may be a deferred word bound to an entry; it is not
+    evaluated before the stores are sorted"""
+    import c15
+    c15.r11_no_deferred_word_is_read_before_the_stores_are_final(cx, rule="R9")
+
+
+def r10_key_lengths_are_compared_before_they_are_narrowed(cx):
+    """= C02-R14 under C03: the reader clamps the inline part of a stored key with `min(len, prefix) as u8`, never
+    `min(len as u8, prefix)` -- a key of 256 bytes or more would be rebuilt from the wrong pieces and compare as another key"""
+    import c02
+    reuse(cx, c02.r14_sizes_are_compared_before_they_are_narrowed, "R14", "R10")
+
+
+def r11_sort_keys_are_kept_as_declared(cx):
+    """'stored in non-decreasing order of those properties': *in the order they were declared*. Schema::new stores the list
+    of sort keys it is given, whole -- it is not rebuilt (filtered, deduplicated, reordered in schema order)"""
+    F = cx.F
+    f = F.one(impl_self="schema::Schema", item="new", closure=False)
+    b = F.deep_body(f, only=r"schema::Schema", closures=True)
+    st = F.struct("creator::directory_pack::schema::Schema")
+    names = [fl["name"] for fl in (st or {}).get("fields", [])]
+    if "sort_keys" not in names:
+        raise AnchorLost("Schema.sort_keys")
+    k = names.index("sort_keys")
+    params = [i for i in range(1, b.arg_count + 1) if re.search(r"Option<std::vec::Vec<PN>>", b.f["locals"][i].get("ty", ""))]
+    aggs = [(i, s_) for i, blk in enumerate(b.blocks) if not blk.get("cleanup") for s_ in blk["s"] if s_["k"] == "assign" and s_["rv"]["k"] == "agg" and s_["rv"].get("adt", "").endswith("schema::Schema") and len(s_["rv"]["fields"]) == len(names)]
+    if len(params) != 1 or not aggs:
+        raise AnchorLost("Schema::new: %d sort-key parameters, %d constructions" % (len(params), len(aggs)))
+    bad = []
+    for i, s_ in aggs:
+        l = op_base_local(s_["rv"]["fields"][k])
+        if l not in b.whole_copies({params[0]}) | {params[0]}:
+            o = b.origins(s_["rv"]["fields"][k])
+            bad.append("line %s: built from %s" % (s_.get("ln"), sorted({callee_str(b.term(x[1])).split("::<")[0][-40:] for x in o if x[0] == "call"}) or "something else"))
+    cx.ob("R11", "R11/Schema.new/sort-keys-as-declared", not bad, f, "the sort_keys of the schema are the list given to Schema::new, unchanged (%s)" % (bad or "whole copy"))
+
+
 def r8_reindexed_after_every_sort(cx):
     """= C15-R1 under C03: every reordering of the entries is followed by a re-indexing before anything consumes the order"""
     import c15
@@ -685,6 +725,9 @@ def r8_reindexed_after_every_sort(cx):
 
 
 RULES = [
+    ("R11", r11_sort_keys_are_kept_as_declared, 1),
+    ("R10", r10_key_lengths_are_compared_before_they_are_narrowed, 1),
+    ("R9", r9_windows_resolved_on_final_positions, 1),
     ("R8", r8_reindexed_after_every_sort, 7),
     ("R1", r1_sort_protocol, 7),
     ("R2", r2_writer_array_order, 12),
